@@ -1,4 +1,5 @@
 """C07 — the floating-point LP and the rational LP never drift apart (structural clauses)."""
+import re
 from engine import render, strip, Graph, Assume, MustSummaries, param_call, must, reachable_events, case_arm_nodes, decision_table
 from facts import AnalysisBroken, CALL_KINDS
 import modifiers as M
@@ -195,6 +196,7 @@ def run(fb, rep, tier):
     r07_5(fb, rep)
     r07_6(fb, rep, mods)
     r07_7(fb, rep)
+    r07_8(fb, rep)
 
 
 GETTER_QUANT = {'lhsRational': 'lhs', 'rhsRational': 'rhs', 'lowerRational': 'low', 'upperRational': 'up', 'objRational': 'obj',
@@ -558,3 +560,26 @@ def r07_7(fb, rep):
                           path=g.path_lines(path) if path else None)
     if k < 4:
         raise AnalysisBroken('R07.7: only %d creation sites of the rational LP found' % k)
+
+
+def r07_8(fb, rep):
+    """R07.8: the rational LP is the exact statement of the user's problem.  An assignment `*_rationalLP = *X` (or construction from X) from
+    the real LP must not be reachable while that real LP is persistently scaled (isScaled()): the scaled numbers are not the user's."""
+    rep.rule('R07.8', 'the rational LP is never assigned from a real LP that is (persistently) scaled', floor=1)
+    C = M.CLS
+    k = 0
+    for f in fb.methods_of(C):
+        for n in f.nodes:
+            if not (n.k == 'CXXOperatorCallExpr' and n.o == '=' and len(n.args()) == 2):
+                continue
+            l, r = render(strip(n.args()[0])), render(strip(n.args()[1]))
+            if l not in ('*_rationalLP', '(*_rationalLP)') or not re.match(r'^\(?\*_realLP\)?$', r):
+                continue
+            k += 1
+            g = Graph(f, Assume(atoms={'_realLP->isScaled()': True, '_isRealLPScaled': True}))
+            b = g.block_of(n)
+            reach = b is not None and b in g.reach(g.entry)
+            rep.check(not reach, 'R07.8', '%s|*_rationalLP = *_realLP' % f.short, '%s:%d' % (f.file, n.l), 'only reachable when the real LP is not scaled',
+                      '%s assigns the real LP to the rational LP on a path that is taken when the real LP is persistently scaled: the rational LP receives scaled coefficients instead of the user\'s numbers' % f.short)
+    if k < 1:
+        raise AnalysisBroken('R07.8: no assignment of the real LP to the rational LP found')
